@@ -160,28 +160,29 @@ class MuxSim:
 class C06(verif.Spec):
     prop = "C06"
     comp = "mux"
-    lean_modules = ["ZvbiModel.Props.C06", "ZvbiModel.Props.C06Join", "ZvbiModel.Props.C06Raw"]
+    lean_modules = ["ZvbiModel.Props.C06", "ZvbiModel.Props.C06Join", "ZvbiModel.Props.C06Raw", "ZvbiModel.Props.C06Ts",
+                    "ZvbiModel.Props.C06CorRaw", "ZvbiModel.Props.C06Undef", "ZvbiModel.Props.C06CorRawHist"]
     harness = "mux_harness"
     harness_link_lib = True
     timeout_per_case = 5.0
     partial_note = ("theorems cover sliced services and raw (monochrome samples) lines through vbi_dvb_mux_feed (PES and TS), both source "
-                    "shapes of generate_pes_packet (flag read from the source by translate/gen_muxflags.py); vbi_dvb_mux_cor (proved equal "
-                    "to feed for all buffer size sequences, raw == NULL) and vbi_dvb_multiplex_sliced; the round trip through C07's model "
-                    "of the library demultiplexer is proved for the PES path, every feed partition, frames of defined sliced lines "
-                    "(Props/C06Join.lean); lines with the undefined line number 0 and the TS path of the demultiplexer are judged by the "
-                    "--demux oracle; vbi_dvb_multiplex_raw and vbi_dvb_mux_cor with raw lines by correspondence / oracle")
+                    "shapes of generate_pes_packet (flag read from the source by translate/gen_muxflags.py); vbi_dvb_mux_cor proved equal "
+                    "to feed for all buffer size sequences with and without raw / sp (Props/C06Join.lean, Props/C06CorRaw.lean); "
+                    "vbi_dvb_multiplex_sliced; vbi_dvb_multiplex_raw for all arguments (Props/C06CorRaw.lean); the round trip through "
+                    "C07's model of the library demultiplexer is proved for the PES path (Props/C06Join.lean) and the TS path "
+                    "(Props/C06Ts.lean: foreign packets interleaved, any feed partition, any start counter), frames of defined sliced "
+                    "lines; lines with the undefined line number 0 are judged by the --demux oracle (open for frames without raw line "
+                    "requests, false with them: finding C06-D4, Props/C06Undef.lean)")
     open_statements = [
-        "mux_demux_roundtrip_undef_full (Props/C06Join.lean): the library round trip for frames that also carry lines with the undefined line number 0 (frame boundaries then depend on the field parity bit, which EnParse does not record); proved without such lines as mux_demux_roundtrip_lib; judged on the real code by the --demux oracle",
-        "mux_demux_roundtrip_ts_full: the round trip through the TS path of the demultiplexer (_vbi_dvb_ts_demux_new; F30 - first frame lost when its PES packet is one TS packet - is fixed in /repo since 9cc9384) - oracle only",
-        "cor_equals_feed_raw_full: vbi_dvb_mux_cor with raw / sp (cor_equals_feed is proved for raw == NULL); vbi_dvb_multiplex_raw as a theorem (op mraw: correspondence + oracle)",
-        "mux_current_shape_F29: on the unchanged tree mux_never_aborts fails (f29_counterexample); all other raw theorems hold for both shapes"]
+        "mux_demux_roundtrip_undef_full (Props/C06Join.lean): the library round trip for frames WITHOUT raw line requests that also carry Teletext lines with the undefined line number 0 - not proved: the field parity the multiplexer writes for such a line (from its last_line, which only grows inside one insert_sliced_data_units call) is not recorded by EnParse.Line, and C07's Demux/Join{Units,Frame} lemmas (frames_of_pesStream) cover defined lines only; proved without such lines as mux_demux_roundtrip_lib / mux_demux_roundtrip_ts, an instance with an undefined line as undef_without_raw_roundtrip; for frames WITH a raw line request (selected or masked out) before the undefined line the statement is FALSE on the current code: undef_after_raw_frame_lost (finding C06-D4, corpus/C06/undef-after-raw-field.ops; true again on the tree with fixes/C06-mux-undef-field-after-raw.diff: undef_after_raw_repaired); judged on the real code by the --demux oracle",
+        "mux_current_shape_F29: on the tree without fixes/C06-mux-raw-last-stuffing.diff mux_never_aborts fails (f29_counterexample); /repo has the fix since b15a657; all other raw theorems hold for both shapes"]
     assumptions = ["callers pass vbi_sliced arrays of the stated length; callback is non-NULL",
                    "the raw frame holds the sp->count[0] + sp->count[1] lines of bytes_per_line bytes the caller declares (RawHolds)",
                    "sampling parameters: scanning 625, YUV420, 13.5 MHz, synchronous (the only values valid_sampling_par admits; the "
                    "harness fixes them), offset / bytes_per_line / start / count / interlaced free"]
-    trusted_base = ["harness/mux_harness.c + lean/Driver/Mux.lean (correspondence of feed/feedraw/cor/multiplex_sliced/multiplex_raw/encode_stuffing)",
+    trusted_base = ["harness/mux_harness.c + lean/Driver/Mux.lean (correspondence of feed/feedraw/cor/corraw/multiplex_sliced/multiplex_raw/encode_stuffing)",
                     "Mux/Spec.lean EnParse and Mux/RawSpec.lean: my transcription of EN 300 472 / EN 301 775 (4.9 for raw units) / ISO 13818-1",
-                    "translate/gen_muxflags.py -> Generated/MuxFlags.lean (source shape of generate_pes_packet; a stale flag shows as an unpredicted crash or a correspondence disagreement)",
+                    "translate/gen_muxflags.py -> Generated/MuxFlags.lean (source shapes of generate_pes_packet / insert_sliced_data_units: muxKeepsLastDuSize, muxSegLastLine; a stale flag shows as an unpredicted crash or a correspondence disagreement)",
                     "constants of sliced.h/dvb.h compared op `consts` on every run"]
 
     # ------------------------------------------------------------------ generators
@@ -197,7 +198,23 @@ class C06(verif.Spec):
             elif k < 0.88: cases.append(self.case_raw(rng))
             elif k < 0.94: cases.append(self.case_mraw(rng))
             else: cases.append(self.case_malformed(rng))
+        # round 5: undefined-line Teletext behind a raw line request (finding C06-D4 when the lines before are on the second field)
+        for _ in range(4 if tier == "quick" else 40):
+            cases.append(self.case_undef_raw(rng))
         return cases
+
+    def case_undef_raw(self, rng):
+        """sliced frames (raw == NULL) holding a masked-out raw line request followed by a Teletext line with line number 0"""
+        c = [self.new_line(rng)]
+        first = rng.choice([7, 9, 22, 320, 321, 334])
+        f = [(rng.choice(TTX_IDS), first, payload(rng, 42))]
+        rawline = first + 1 + rng.randrange(0, 3) if rng.random() < 0.8 else rng.choice([8, 23, 330, 336])
+        if rawline > first: f.append((VBI625, rawline, []))
+        f.append((rng.choice(TTX_IDS), 0, payload(rng, 42)))
+        c.append("feed %d 0x%x 0 %s" % (rng.randrange(2**33), ALL & ~VBI625, fmt_lines(f)))
+        for _ in range(2):
+            c.append("feed %d 0xffffffff 0 %s" % (rng.randrange(2**33), fmt_lines([(3, 7, payload(rng, 42))])))
+        return c
 
     # raw line lengths that make the data end near a packet boundary / a full data unit
     SPLS = (720, 720, 1, 2, 40, 41, 80, 131, 125, 126, 137, 250, 251, 252, 257, 309, 315, 500, 502, 503, 100, 719)
@@ -237,7 +254,12 @@ class C06(verif.Spec):
             il = 1 if rng.random() < 0.15 else 0
             if il and rng.random() < 0.7: c1 = c0
             rnull = 1 if rng.random() < 0.04 else 0
-            if il or rnull or rng.random() < 0.2:
+            if rng.random() < 0.3:
+                # round 5: the same frame through vbi_dvb_mux_cor with raw / sp, any output buffer sizes
+                sizes = ",".join(str(rng.choice(BUFS)) for _ in range(rng.randrange(1, 5)))
+                c.append("corraw %d 0x%x %s %d %d %d %d %d %d %d %d %d %s" % (rng.randrange(2**33), mask, sizes, off, spl, s0, c0, s1, c1,
+                                                                            rng.randrange(256), il, rnull, fmt_lines(f)))
+            elif il or rnull or rng.random() < 0.2:
                 c.append("feedraw2 %d 0x%x %d %d %d %d %d %d %d %d %d %s" % (rng.randrange(2**33), mask, off, spl, s0, c0, s1, c1,
                                                                           rng.randrange(256), il, rnull, fmt_lines(f)))
             else:
@@ -393,7 +415,9 @@ class C06(verif.Spec):
                 "reset 1", "state 1", "feed 1 1 0 1 3 7 " + "00" * 57, "feed 1 1 0 1001", "msliced 70001 1 16 1 0",
                 "feedraw 1 2 3", "stuff 1 300 0 -", "enparse", "mraw 1 2 3", "mraw 100 153 1 7 0 720 1 720 x", "mraw 70001 153 1 7 0 720 1 720 0",
                 "feedraw2 1 1 132 720 7 17 320 17 0 2 0 0", "feedraw 1 1 132 5000 7 17 320 17 0 0", "feedraw 1 1 132 720 7 65 320 17 0 0",
-                "feedraw 1 0xffffffff 132 720 7 17 320 17 0 1 0x20000000 7", "enparser"]
+                "feedraw 1 0xffffffff 132 720 7 17 320 17 0 1 0x20000000 7", "enparser",
+                "corraw 1 2 3", "corraw 1 0xffffffff 5,x 132 720 7 17 320 17 0 0 0 0", "corraw 1 0xffffffff 5 132 720 7 17 320 17 0 2 0 0",
+                "corraw 1 0xffffffff 0 132 100 7 17 320 17 0 0 0 1 0x20000000 8 -", "corraw 1 0xffffffff 7,0 132 100 7 17 320 17 0 0 0 1 0x20000000 8 -"]
         c = []
         if rng.random() < 0.5: c.append(self.new_line(rng))
         if rng.random() < 0.3: c.append("new ts %d" % rng.choice([0, 15, 0x1FFF, 0x2000, 2**32 + 5]))
@@ -403,7 +427,7 @@ class C06(verif.Spec):
 
     def classify(self, case):
         ops = {l.split()[0] for l in case}
-        if "feedraw" in ops or "feedraw2" in ops: return "raw"
+        if "feedraw" in ops or "feedraw2" in ops or "corraw" in ops: return "raw"
         if "mraw" in ops: return "mraw"
         if "msliced" in ops: return "msliced"
         if "stuff" in ops: return "stuff"
@@ -494,23 +518,42 @@ class C06(verif.Spec):
                 plan["packets"].append((i, sim.cc & 15, hexb, pts % 2**33, sim.dataid, size,
                                         [canon(s, l, d) for s, l, d in lines if s & mask]))
                 sim.cc += npk if sim.pid else 0
-            elif t[0] in ("feedraw", "feedraw2"):
+            elif t[0] in ("feedraw", "feedraw2", "corraw"):
                 plan["clean"] = False          # the demultiplexer round trip (frames of sliced lines) is judged on other cases
+                cor = t[0] == "corraw"         # round 5: vbi_dvb_mux_cor with raw / sp, run until *sliced_left == 0 or failure
+                if cor and "0" in t[3].split(","):
+                    # a zero-size buffer ends the loop with FALSE, possibly with output still pending and the counter advanced:
+                    # the rest of this case is left to the correspondence check
+                    plan["clean"] = False
+                    return None, plan
+                if cor and sim.pending is not None:
+                    continue                   # pending output of an earlier cor op is drained first: correspondence only
                 sim.pending = None
                 a = self.raw_args(t)
-                ok, calls, sizes, hexb = r[1] == "true", int(r[2]), r[3], r[4]
+                if cor:
+                    ok, sleft, sidx, hexb = r[1] == "true", int(r[3]), int(r[4]), r[5]
+                    calls, sizes = (0 if hexb == "-" else 1), ""
+                else:
+                    ok, calls, sizes, hexb = r[1] == "true", int(r[2]), r[3], r[4]
                 acc, size, items = self.raw_expect(sim, a)
+                if cor and not a["lines"]: acc = False      # *sliced_left == 0: FALSE by contract (dvb_mux.c:1789)
                 plan.setdefault("raw_seen", []).append(ok)
                 if not ok:
-                    if calls or hexb != "-": return "rejected frame produced output: feedraw", plan
-                    if acc: return "permitted frame rejected: feedraw", plan
+                    if calls or hexb != "-": return "rejected frame produced output: %s" % t[0], plan
+                    if acc: return "permitted frame rejected: %s" % t[0], plan
+                    if cor and a["lines"] and sleft + sidx != len(a["lines"]): return "sliced pointer accounting: corraw", plan
                     continue
-                if acc is False: return "frame outside the contract was accepted: feedraw", plan
+                if acc is False: return "frame outside the contract was accepted: %s" % t[0], plan
                 if acc is None: continue
                 npk = 1 if sim.pid == 0 else size // 184
-                szs = [int(x) for x in sizes.split(",")]
-                want = [size] if sim.pid == 0 else [188] * npk
-                if szs != want: return "packet sizes %s, expected %s: feedraw" % (szs[:4], want[:4]), plan
+                if cor:
+                    total = size if sim.pid == 0 else npk * 188
+                    if hexb == "-" or len(hexb) // 2 != total: return "coroutine stored %d bytes, expected %d: corraw" % (len(hexb) // 2, total), plan
+                    if sleft != 0 or sidx != len(a["lines"]): return "sliced_left %d / advance %d after the last byte: corraw" % (sleft, sidx), plan
+                else:
+                    szs = [int(x) for x in sizes.split(",")]
+                    want = [size] if sim.pid == 0 else [188] * npk
+                    if szs != want: return "packet sizes %s, expected %s: feedraw" % (szs[:4], want[:4]), plan
                 if not (sim.min <= size <= sim.max and size % 184 == 0): return "size outside bounds: feedraw", plan
                 b = bytes.fromhex(hexb)
                 if sim.pid:
@@ -554,6 +597,10 @@ class C06(verif.Spec):
         return None, plan
 
     def raw_args(self, t):
+        if t[0] == "corraw":
+            return {"pts": int(t[1]), "mask": int(t[2], 0) & ALL, "off": int(t[4]), "spl": int(t[5]), "s0": int(t[6]), "c0": int(t[7]),
+                    "s1": int(t[8]), "c1": int(t[9]), "seed": int(t[10]), "il": int(t[11]), "rnull": int(t[12]),
+                    "lines": parse_lines_tokens(t[13:])}
         two = t[0] == "feedraw2"
         at = 12 if two else 10
         return {"pts": int(t[1]), "mask": int(t[2], 0) & ALL, "off": int(t[3]), "spl": int(t[4]), "s0": int(t[5]), "c0": int(t[6]),
@@ -718,13 +765,41 @@ class C06(verif.Spec):
             raw = False
             for l in case:
                 t = l.split()
-                if t and t[0] in ("feedraw", "feedraw2"):
+                if t and t[0] in ("feedraw", "feedraw2", "corraw"):
                     try: raw = raw or any(sid == VBI625 for sid, _, _ in self.raw_args(t)["lines"])
                     except (ValueError, IndexError): pass
             return "feedraw:assert-last_du_size" if raw else "crash:assert-last_du_size"
+        if (what.startswith("demux round trip") or what.startswith("joined round trip")) and self.undef_after_raw(case):
+            return "undef-after-raw:field-parity"          # finding C06-D4 (round 5)
         if what.startswith("crash") or what.startswith("hang"):
             return what.split("(")[0].strip() + ":" + what.split("(", 1)[-1][:60]
         return re.sub(r"\d+", "N", what.split(":")[0])
+
+    def undef_after_raw(self, case):
+        """shape of finding C06-D4: a selected line with the undefined line number 0 behind a raw line request, the last
+        defined selected line before the request lying on the second field"""
+        for l in case:
+            t = l.split()
+            try:
+                if not t: continue
+                if t[0] == "feed": mask, lines = int(t[2], 0) & ALL, parse_lines_tokens(t[4:])
+                elif t[0] in ("cor", "corall"): mask, lines = int(t[2], 0) & ALL, parse_lines_tokens(t[4:])
+                elif t[0] in ("feedraw", "feedraw2", "corraw"):
+                    a = self.raw_args(t); mask, lines = a["mask"], a["lines"]
+                else: continue
+            except (ValueError, IndexError):
+                continue
+            last, seen_raw = 0, False
+            for sid, ln, _ in lines:
+                if sid == VBI625:
+                    seen_raw = seen_raw or last >= 313 or (sid & mask != 0 and ln >= 313)
+                    continue
+                if sid & mask == 0: continue
+                if ln == 0:
+                    if seen_raw: return True
+                else:
+                    last, seen_raw = ln, False
+        return False
 
     # ------------------------------------------------------------------ batch parts of the oracle
     def extra_checks(self, ctx):
@@ -834,7 +909,7 @@ class C06(verif.Spec):
             else: n_pred += 1
         self.extra_coverage["crashes_predicted_by_model"] = n_pred
         # (e) the library's demultiplexer must survive packets with raw data units (it does not decode them)
-        rawc = [case for i, case in enumerate(ctx["cases"]) if any(l.startswith("feedraw") for l in case)
+        rawc = [case for i, case in enumerate(ctx["cases"]) if any(l.startswith("feedraw") or l.startswith("corraw") for l in case)
                 and len(ctx["impl_out"].get(i, [])) >= len(case)]
         if ctx["tier"] == "quick" and len(rawc) > 80: rawc = ctx["rng"].sample(rawc, 80)
         if rawc:
